@@ -17,7 +17,11 @@ PROP = dict(
                    "(C20_close_reports_before_return; with Done not deferred to the end of the goroutine it is not: "
                    "C20_close_report_after_return_counterexample); DefinitionRegistry.GetMetaOrRegister is one LoadOrStoreFn of the registry's map, "
                    "so for every number of callers of one name and every schedule each caller holds the definition the registry keeps "
-                   "(C20_getMetaOrRegister_one_definition), whereas lookup-build-Store hands out two (C20_getMetaOrRegister_check_then_act_counterexample).",
+                   "(C20_getMetaOrRegister_one_definition), whereas lookup-build-Store hands out two (C20_getMetaOrRegister_check_then_act_counterexample). "
+                   "Sixth round: Close's goroutines report failing closers through one shared logger object; the built-in logger builds each line in "
+                   "locals of the call, so C20_close_drf covers the report step; with ONE location in that logger written by every reporting "
+                   "goroutine outside a lock, two closers failing together are inside their accesses at the same time on some schedule, for every "
+                   "n >= 2 (C20_close_shared_scratch_race_counterexample).",
         level_note="Partial by nature: the model is sequentially consistent and assumes sync.Map/Mutex/WaitGroup primitives atomic; the Go "
                    "memory model, sync.Map internals and what scanners/closers touch internally are covered only by the race-detector runs "
                    "(real starts with simultaneously failing scanners, real shutdowns) and by linearizability checks of recorded histories.",
@@ -45,7 +49,15 @@ PROP = dict(
              "component) on up to 300 (1500) fresh support.DefaultDefinitionRegistry() (oracle getmeta-two-winners: one definition handed out, listed once, "
              "the one GetMetaByName returns); 4 (16) `gscan <n> <starts> <seed>` in a race-detector child process: 3 (8) real starts of 8-48 (sometimes 2-7) "
              "components with a user DefinitionRegistryPostProcessor that load-or-stores ONE shared extra definition for each of them, the calls lined "
-             "up at a barrier (oracle scan-two-definitions)",
+             "up at a barrier (oracle scan-two-definitions); "
+             "sixth round (drawn after everything else): 4 (thorough 16) `closeb <n> <errmask> <rounds> <seed>` in ONE fresh race-detector child process: "
+             "the library's BUILT-IN logger (nothing installed through SetLogger) at the error level, its output redirected to a scratch file (os.Stderr "
+             "swapped while syslog.Level(LvError) builds the logger, before the first App of the process logs); 8-24 closers, all of them (2/3 of the cases) "
+             "or about three quarters failing, the failing ones waiting for each other inside Close() and returning their errors - each with its own "
+             "~200-byte message - at the same moment; first a shutdown with ONE failing closer (reference: how often its message appears), then 4 (12) fresh "
+             "Apps; observed: a race report mentioning go-kid/ioc (`race`), the closers' counters, and the captured output - oracle close-log-garbled: "
+             "every failing closer's message stands there whole, as often as that of a closer failing alone (when the missing ones arrive within 300 ms "
+             "after the return: close-report-after-return)",
         trusted_base=COMMON_TB + ["the reading of Facts.scanSkel/closeSkel/sync2Methods/concurrentSetMethods into guards and primitive "
                                   "sequences (Ioc.Conc.scanShape, closeShape, factProgs) and the go/ast skeleton extractor",
                                   "the Go race detector (go build -race) as the observer of unsynchronised accesses in the real runs",
